@@ -122,6 +122,24 @@ theorem rfc1123ToSnake_tie (s : String) :
     VirtualServerCfg.rfc1123ToSnake s = String.ofList (s.toList.map fun c => if c = '-' then '_' else c) := by
   exact replaceAll_char s '-' '_' 
 
+/-- further identifiers, as the source builds them now (their uniqueness follows from that of the upstream name / indices) -/
+theorem statusMatchName_eq (u : String) : VirtualServerCfg.generateStatusMatchName u = u ++ "_match" := by
+  simp [VirtualServerCfg.generateStatusMatchName, Go.fmt, Go.Fmt.fmt]
+
+theorem statusMatchName_inj (u v : String) (h : VirtualServerCfg.generateStatusMatchName u = VirtualServerCfg.generateStatusMatchName v) :
+    u = v := by
+  rw [statusMatchName_eq, statusMatchName_eq] at h
+  have := congrArg String.toList h
+  simp only [String.toList_append] at this
+  exact String.toList_inj.mp (List.append_cancel_right this)
+
+theorem errorPageName_eq (i j : Int) : VirtualServerCfg.generateErrorPageName i j = "@error_page_" ++ toString i ++ "_" ++ toString j := by
+  simp [VirtualServerCfg.generateErrorPageName, Go.fmt, Go.Fmt.fmt]
+
+theorem dosPolicyFile_eq (ns name : String) :
+    Configurator.appProtectDosPolicyFileName ns name = "/etc/nginx/dos/policies/" ++ ns ++ "_" ++ name ++ ".json" := by
+  simp [Configurator.appProtectDosPolicyFileName, Go.fmt, Go.Fmt.fmt]
+
 /-! non-vacuity -/
 example : VirtualServerCfg.upstreamNamer_GetNameForUpstream (VirtualServerCfg.NewUpstreamNamerForVirtualServer { ObjectMeta := { Namespace := "d", Name := "cafe" } }) "tea" = "vs_d_cafe_tea" := by decide
 example : Configurator.getFileNameForVirtualServerFromKey "d/cafe" = "vs_d_cafe" := by decide
